@@ -291,5 +291,24 @@ if __name__ == "__main__":
         gen(sys.argv[2], int(sys.argv[3]) if len(sys.argv) > 3 else 12)
     elif sys.argv[1] == "run":
         run(sys.argv[2], sys.argv[3])
-    else:
+    elif sys.argv[1] == "show":
         show(sys.argv[2])
+
+
+def emit(path, key, out):
+    """write the patch of the mutant whose 'function:line:what' contains key"""
+    import difflib
+    res = json.load(open(path))
+    hits = [m for m in res if key in "%s:%d:%s" % (m["function"], m["line"], m["what"])]
+    for i, m in enumerate(hits):
+        b = open(os.path.join(REPO, m["file"]), "rb").read()
+        nb = b[:m["start"]] + m["new"].encode() + b[m["end"]:]
+        d = "".join(difflib.unified_diff(b.decode().splitlines(1), nb.decode().splitlines(1), "a/" + m["file"], "b/" + m["file"]))
+        fn = "%s.%d.diff" % (out, i)
+        open(fn, "w").write(d)
+        print(fn, m["function"], m["line"], m["what"])
+        print("".join(l for l in d.splitlines(1) if l[0] in "+-" and not l.startswith(("+++", "---"))), end="")
+
+
+if __name__ == "__main__" and sys.argv[1] == "emit":
+    emit(sys.argv[2], sys.argv[3], sys.argv[4])
